@@ -176,6 +176,7 @@ package cmd
 //@   loop 1
 //@     complete [all_iterations_no_early_exit]
 //@     step [the_specific_tips_are_recomputed_for_every_tree_read] tipfile == "none" && comptree != nil && reftree.Err == nil ==> ghost(ncalls_specificTips) == atHead(ghost(ncalls_specificTips)) + 1
+//@     step [a_fresh_random_sample_is_drawn_for_every_tree_read] tipfile == "none" && comptree == nil && randomtips > 0 && reftree.Err == nil ==> ghost(ncalls_randomTips) == atHead(ghost(ncalls_randomTips)) + 1
 //@   recv treechan [message_is_a_tree_or_an_error] msg.Err == nil ==> msg.Tree != nil
 //@   call (*tree.Tree).RemoveTips [on_the_tree_just_read_with_revert_as_given] a0 == reftree.Tree && a1 == revert
 //@   call (*tree.Tree).RemoveTips [the_tip_file_comes_first] tipfile != "none" ==> a2 == tips
